@@ -206,6 +206,48 @@ fn token_faults(orig: &[u8], dense: bool) -> Vec<(String, Vec<u8>)> {
     out
 }
 
+/// Numbers inside the text blocks of the data section (window rows: width and coefficients; trees: state indices, node
+/// ids, leaf numbers) replaced by special values, with [POSITION] rewritten so that the edited block is still found
+/// whole - an overlong or absurd number must be an error (or harmless), not a panic or an unbounded allocation.
+fn data_number_faults(orig: &[u8], dense: bool) -> Vec<(String, Vec<u8>)> {
+    let parts = crate::gen::cond::split_blocks(orig);
+    let order: Vec<usize> = (0..parts.blocks.len()).collect();
+    let reps = ["0", "4000000000000000000", "1000000000000", "99999999999999999999", "-1"];
+    let mut out = Vec::new();
+    for (bi, (li, ri, bytes)) in parts.blocks.iter().enumerate() {
+        let key = &parts.keys[*li];
+        let is_win = key.contains("WIN");
+        if !(is_win || (dense && key.contains("TREE"))) {
+            continue;
+        }
+        let mut i = 0;
+        let mut runs: Vec<(usize, usize)> = Vec::new();
+        while i < bytes.len() {
+            if bytes[i].is_ascii_digit() {
+                let st = i;
+                while i < bytes.len() && bytes[i].is_ascii_digit() {
+                    i += 1;
+                }
+                runs.push((st, i));
+            } else {
+                i += 1;
+            }
+        }
+        // trees of generated files: every number; windows: every number (the first one of a row is the width)
+        for (st, en) in runs {
+            for rep in reps {
+                let mut nb = bytes[..st].to_vec();
+                nb.extend(rep.as_bytes());
+                nb.extend(&bytes[en..]);
+                let mut p2 = crate::gen::cond::Parts { head: parts.head.clone(), keys: parts.keys.clone(), blocks: parts.blocks.clone() };
+                p2.blocks[bi].2 = nb;
+                out.push((format!("data number {}#{} bytes {}..{} {:?}->{}", key, ri, st, en, String::from_utf8_lossy(&bytes[st..en]), rep), crate::gen::cond::assemble(&p2, &order, false)));
+            }
+        }
+    }
+    out
+}
+
 /// The full, deterministic fault list for one base file: (name, bytes). Built lazily by index.
 pub struct FaultSet {
     pub orig: Vec<u8>,
@@ -225,7 +267,8 @@ impl FaultSet {
         let trunc = truncations(&orig, dense);
         let header = header_faults(&orig, false);
         let swaps = swap_faults(&orig);
-        let tokens = token_faults(&orig, dense);
+        let mut tokens = token_faults(&orig, dense);
+        tokens.extend(data_number_faults(&orig, dense));
         let mut bytes = Vec::new();
         // non-UTF-8 / NUL bytes in each header section
         for pos in [2usize, 10, dp / 4, dp / 2, 3 * dp / 4, dp - 10, dp - 2] {
@@ -392,7 +435,7 @@ pub fn child(args: &[String]) -> i32 {
 
 pub fn run(tier: Tier) -> i32 {
     let rep = Report::new("C18", tier, "fault_enumeration");
-    rep.set_rule("fault enumeration on 6 generated voice files (about 2-4 kB: 2/3 streams, GV on/off, single-leaf and 3-leaf trees, quoted/unquoted leaves) and the bundled voice: singles = truncation (every byte offset on generated files; every section/range boundary +-1 and a 64-point lattice on V0), every header number replaced by each of 13 values, every header line deleted/duplicated/emptied, every range inverted, every pair of ranges swapped, tree/question/window tokens renamed or removed (every occurrence on generated files), every text byte of generated files replaced by each of 9 bytes, NUL/0xFF/partial-UTF-8 bytes in every header section, PDF count words overwritten; doubles (thorough; first generated file in quick) = all pairs of reduced header faults on different lines, reduced header fault x truncation (stride 7), reduced header fault x token fault; each case loaded via the real loader + VoiceSet + Condition::load_model in a child process (RLIMIT_AS 3 GiB, 90 s per case); distinct = distinct fault; non-trivial = faulted bytes differ from the base");
+    rep.set_rule("fault enumeration on 6 generated voice files (about 2-4 kB: 2/3 streams, GV on/off, single-leaf and 3-leaf trees, quoted/unquoted leaves) and the bundled voice: singles = truncation (every byte offset on generated files; every section/range boundary +-1 and a 64-point lattice on V0), every header number replaced by each of 13 values, every header line deleted/duplicated/emptied, every range inverted, every pair of ranges swapped, tree/question/window tokens renamed or removed (every occurrence on generated files), every number inside window rows (and, on generated files, inside tree text) replaced by each of {0, 4e18, 1e12, a 20-digit number, -1} with the ranges rewritten to match, every text byte of generated files replaced by each of 9 bytes, NUL/0xFF/partial-UTF-8 bytes in every header section, PDF count words overwritten; doubles (thorough; first generated file in quick) = all pairs of reduced header faults on different lines, reduced header fault x truncation (stride 7), reduced header fault x token fault; each case loaded via the real loader + VoiceSet + Condition::load_model in a child process (RLIMIT_AS 3 GiB, 90 s per case); distinct = distinct fault; non-trivial = faulted bytes differ from the base");
     rep.assume("at most two simultaneous faults; V0's binary PDF payload is only truncated and overwritten at its count words");
     let b = bases();
     let outcomes: Mutex<BTreeMap<String, (u64, String)>> = Mutex::new(BTreeMap::new());
